@@ -174,6 +174,21 @@ def run(chk, runner_ok):
     if model:
         outs = model.call([(2, [items, q]) for items, q in kcases])
         chk.correspond("KEYED", kcases, impl, outs)
+    # iteration: keys(), values(), items() keep file order including duplicates
+    icases = [items for items, q in kcases[::4]]
+    impl = []
+    for i, items in enumerate(icases):
+        from compare_locales.keyedtuple import KeyedTuple
+        ents = [Ent(render_key(a, i % 3), b) for a, b in items]
+        back = {render_key(a, i % 3): a for a, _ in items}
+        kt = KeyedTuple(ents)
+        impl.append([[back[k] for k in kt.keys()],
+                     [[back[k], v.payload] for k, v in kt.items()]])
+        if [e.payload for e in kt.values()] != [b for _, b in items]:
+            chk.fail("keyedtuple-lookup", {"items": items, "key": 0, "style": i % 3}, "values() order")
+    if model:
+        outs = model.call([(4, [items]) for items in icases])
+        chk.correspond("KEYED-iteration", icases, impl, outs)
     pcases = []
     for items, q in kcases[::4]:
         for i in range(-len(items) - 1, len(items) + 2):
